@@ -327,7 +327,7 @@ func checkC13(c *Ctx) {
 	r.NotDecided = []string{"behaviour of the store underneath a live snapshot", "TLS negotiation", "robustness to arbitrary bytes in the command line", "that RETR/TOP refuse messages already marked deleted (not required by the property)"}
 	r.Assumptions = []string{"one Session object per session goroutine", "strconv.ParseInt(…, 10, 32) results fit an int"}
 	r.Rule("C13/SNAPSHOT", "Session.messages: single writer (loader) reached only under AUTHORIZATION and followed by the retain reset; retain = make([]bool, len(messages)); msgCount = len(messages); TRANSACTION entered only after a load")
-	r.Rule("C13/COMMIT", "RemoveMessage only in the delete processor under !retain[i] with that element's ID and the session's user; delete processor only in TRANSACTION, only under cmd==\"QUIT\", only after a successful read, followed by enterState(QUIT)")
+	r.Rule("C13/COMMIT", "RemoveMessage only in the delete processor under !retain[i] with that element's ID and the session's user; delete processor only in TRANSACTION, only under cmd==\"QUIT\", only after a successful read, followed by enterState(QUIT); the session code calls no other store mutator")
 	r.Rule("C13/MARKS", "retain[i]=false and msgCount-- only together, under retain[i] true; RSET reaches the retain reset")
 	r.Rule("C13/VIEWS", "in loops over the snapshot every send and every accumulation is control-dependent on retain[i]; numbers are i+1; single-message LIST/UIDL are guarded by retain[n-1]")
 	r.Rule("C13/PANIC/index", "every index into messages/retain derived from a parsed argument is dominated by n >= 1 and n <= len(messages); loop indices range over the snapshot itself")
@@ -550,6 +550,31 @@ func (c *Ctx) c13Commit(m *pop3Model) {
 		})
 	}
 	r.Floor("C13/COMMIT", "RemoveMessage call sites in pop3", nRm, 1)
+	// the session changes the store through nothing else: a purge or a write of another kind
+	// acts on the mailbox as it is at that moment, not on the messages the session marked
+	{
+		var other []string
+		for _, name := range []string{"PurgeMessages", "AddMessage", "MarkSeen"} {
+			obj := p.MethodObj("pkg/storage", "Store", name)
+			if obj == nil {
+				continue
+			}
+			for _, fn := range m.fns {
+				fn := fn
+				eng.EachInstr(fn, func(in ssa.Instruction) {
+					if ci, ok := in.(ssa.CallInstruction); ok && eng.IsCallTo(ci.Common(), obj) {
+						other = append(other, "Store."+name+" at "+p.InstrPos(in))
+					}
+				})
+			}
+		}
+		sort.Strings(other)
+		if len(other) > 0 {
+			r.Bad("C13/COMMIT", "store-mutators", "", "the POP3 session changes the store through %s: messages that were never marked in this session (mail delivered after the snapshot was taken) are affected", strings.Join(other, ", "))
+		} else {
+			r.Ok("C13/COMMIT", "store-mutators", "", "the POP3 session code calls no store mutator other than RemoveMessage")
+		}
+	}
 	// the delete loop must visit every snapshot element: no return / break out of its body
 	delIter := map[*ssa.Function]bool{}
 	for _, v := range m.visits() {
